@@ -62,6 +62,7 @@ type Oblig struct {
 	Negate   bool // cover obligations: want SAT
 	Outputs  []OutVar
 	SiteDesc string
+	Deps     []string // earlier ensures of the same return that this obligation assumes
 }
 
 // OutVar is a scalar result of the function at one return (for replay).
@@ -159,8 +160,11 @@ type Enc struct {
 	qn             int
 	rootFoot       *callEffect
 	typedArr       map[string]bool
+	allocArr       map[string]bool
+	ifaceKey       map[string]bool
 	rootEntry      *Heap
 	paramOps       []Operand
+	byrefKey       map[string]bool
 }
 
 func newEnc(w *World, fn *ssa.Function, c *Contract) *Enc {
@@ -185,6 +189,7 @@ func (e *Enc) reset() {
 	e.fatal = nil
 	e.cellOp = nil
 	e.typedArr = nil
+	e.allocArr = nil
 	e.warns = map[string]bool{}
 	e.used = map[string]bool{}
 	e.inlined = map[string]bool{}
@@ -380,7 +385,7 @@ func (e *Enc) hget(h *Heap, key string) string {
 				t = e.define(fmt.Sprintf("K_%s_%d", key, h.id), sortK, term)
 			default:
 				t = e.declare(fmt.Sprintf("K_%s_%d", key, h.id), sortK)
-				cond := []string{fmt.Sprintf("(<= r!f %s)", ce.allocPre)}
+				cond := []string{e.allocatedCond(key, "r!f", ce.allocPre)}
 				for _, r := range refs {
 					cond = append(cond, fmt.Sprintf("(distinct r!f %s)", r))
 				}
@@ -488,9 +493,27 @@ func (e *Enc) mergeHeaps(arms []mergeArm) *Heap {
 // ---------------------------------------------------------------------------
 // addresses
 
+// allocatedCond: object r existed when the allocation watermark was `alloc`.
+// Element objects of byref types (negative ids) exist iff their backing array does.
+func (e *Enc) allocatedCond(key, r, alloc string) string {
+	if e.ifaceKey[key] {
+		return "true"
+	}
+	if e.byrefKey[key] {
+		return fmt.Sprintf("(ite (< %s 0) (<= (eref %s) %s) (<= %s %s))", r, r, alloc, r, alloc)
+	}
+	return fmt.Sprintf("(<= %s %s)", r, alloc)
+}
+
 func (e *Enc) fieldKey(structT types.Type, st *types.Struct, i int) string {
 	f := st.Field(i)
 	key := keyField(structT, f.Name())
+	if e.isByRef(structT) {
+		if e.byrefKey == nil {
+			e.byrefKey = map[string]bool{}
+		}
+		e.byrefKey[key] = true
+	}
 	e.regKey(key, "(Array Int "+e.d.sortOf(f.Type())+")", f.Type())
 	return key
 }
